@@ -63,9 +63,9 @@ Cont(X, w) == ListsOver(X, w) \cup MapsOf(X, w)
 
 S2 == {one, sa}
 T1 == S2 \cup Cont(S2, 3)
-T1w2 == S2 \cup Cont(S2, 2)
 T2 == S2 \cup Cont(T1, 2)
-T2wide == Cont(T1w2, 3)
+T1w1 == S2 \cup Cont(S2, 1)
+T2wide == Cont(T1w1, 3)
 T2sub == {one, ListV(<<>>), ObjV(<<>>), ListV(<<one>>), ObjV(<<Ent(kA, one)>>), ListV(<<ListV(<<>>)>>),
           ListV(<<ObjV(<<>>)>>), ObjV(<<Ent(kA, ListV(<<>>))>>), ObjV(<<Ent(kA, ObjV(<<>>))>>),
           ListV(<<one, ListV(<<>>)>>), ListV(<<ListV(<<>>), one>>),
